@@ -7,6 +7,7 @@ close / GC interleaving) the model can take from the initial state; proofs are b
 import JanetModel.Loop.Model
 import JanetModel.Loop.SelfPipe
 import JanetModel.Loop.FdPaths
+import JanetModel.Loop.RootPaths
 import JanetModel.Loop.FdsSpawn
 import JanetModel.Loop.Child
 
@@ -792,12 +793,72 @@ theorem fd_paths_balanced (p : FdPaths.Path) (hp : p ∈ Gen.FdPaths.paths) (he 
 
 /-- the discipline rejects a path that leaves a local holding a descriptor (ev/to-file without the close on the failed-fdopen
     branch), a double close, and an overwritten local -/
-example : pathOk ("get_file_for_stream", "return", "((void*)0)", [("create", "fd_dup", "", "dup(stream->handle)")]) = false := by decide
+example : pathOk ("get_file_for_stream", "return", "((void*)0)", [("create", "fd_dup", "", "dup($1->handle)")]) = false := by decide
 example : pathOk ("f", "return", "", [("create", "fd", "", "k"), ("close", "fd", "", "k"), ("close", "fd", "", "k")]) = false := by decide
 example : pathOk ("f", "return", "", [("create", "fd", "", "k"), ("create", "fd", "", "k"), ("close", "fd", "", "k")]) = false := by decide
 example : Gen.FdPaths.paths.length ≥ 40 := by decide
 
 end FdPathsSec
+
+/-! ## path-level gcroot / gcunroot balance of the event-loop operations (session 4)
+
+`Gen.RootPaths.paths`: every control-flow path of janet_async_start_fiber / janet_async_end, janet_ev_threaded_await /
+janet_ev_default_threaded_callback, janet_thread_chan_cb, os_proc_wait_impl / janet_proc_wait_cb, janet_watcher_listen /
+janet_watcher_unlisten with its janet_gcroot / janet_gcunroot calls and the branches it took. -/
+
+section RootPathsSec
+
+/-- every extracted path pins / releases exactly what its operation must, given the branches it took: the starting function pins
+    on every path that does not raise (and nothing on one that does), the completing function releases each pinned object
+    exactly once on every path - stale or cancelled waiter, error result, non-zero exit status included -/
+theorem root_paths_ok : Gen.RootPaths.paths.all RootPaths.pathOk = true := by decide
+
+/-- every function the walker was asked for has paths, and no path belongs to another function -/
+theorem root_paths_functions :
+    Gen.RootPaths.functions.all (fun fn => Gen.RootPaths.paths.any (fun p => p.1 == fn)) = true ∧
+    Gen.RootPaths.paths.all (fun p => Gen.RootPaths.functions.contains p.1) = true := by decide
+
+/-- ★ the root changes of the model's transitions are the ones the code performs on the corresponding paths: what `astart`,
+    `await`, `procWait`, `watchListen` add to `roots` is what the starting function pins, and what `aend`, `deliverAwait`,
+    `deliverProc`, `deliverChan`, `watchUnlisten` take away is what the completing function releases -/
+theorem root_ops_match_model (cfg : Cfg) (s : St) :
+    (step cfg s .astart).map (·.roots) = some (s.roots + RootPaths.net (RootPaths.expected (RootPaths.normal "janet_async_start_fiber" []))) ∧
+    (step cfg s .await).map (·.roots) = some (s.roots + RootPaths.net (RootPaths.expected (RootPaths.normal "janet_ev_threaded_await" []))) ∧
+    (step cfg s .procWait).map (·.roots) = some (s.roots + RootPaths.net (RootPaths.expected (RootPaths.normal "os_proc_wait_impl" []))) ∧
+    (step cfg s .watchListen).map (·.roots) = some (s.roots + RootPaths.net (RootPaths.expected (RootPaths.normal "janet_watcher_listen" []))) ∧
+    (s.lis ≠ 0 → (step cfg s .aend).map (·.roots) =
+      some (s.roots + RootPaths.net (RootPaths.expected (RootPaths.normal "janet_async_end" [("assume:listening", "true")])))) ∧
+    (s.awaits ≠ 0 → s.calls ≠ 0 → (step cfg s .deliverAwait).map (·.roots) =
+      some (s.roots + RootPaths.net (RootPaths.expected (RootPaths.normal "janet_ev_default_threaded_callback" [("assume:no-fiber", "false")])))) ∧
+    (s.noFiber ≠ 0 → s.calls ≠ 0 → (step cfg s .deliverNoFiber).map (·.roots) =
+      some (s.roots + RootPaths.net (RootPaths.expected ("janet_ev_default_threaded_callback", "return", "", [("assume:no-fiber", "true")])))) ∧
+    (s.procWaits ≠ 0 → s.calls ≠ 0 → (step cfg s .deliverProc).map (·.roots) =
+      some (s.roots + RootPaths.net (RootPaths.expected (RootPaths.normal "janet_proc_wait_cb" [("assume:have-proc", "true")])))) ∧
+    (cfg.tchanUnroot = true → s.posted ≠ 0 → s.tchanPending ≠ 0 → (step cfg s .deliverChan).map (·.roots) =
+      some (s.roots + RootPaths.net (RootPaths.expected (RootPaths.normal "janet_thread_chan_cb" [])))) ∧
+    (s.watching ≠ 0 → (step cfg s .watchUnlisten).map (·.roots) =
+      some (s.roots + RootPaths.net (RootPaths.expected (RootPaths.normal "janet_watcher_unlisten" [("assume:not-watching", "false")])))) := by
+  refine ⟨?_, ?_, ?_, ?_, ?_, ?_, ?_, ?_, ?_, ?_⟩
+  · simp [step, RootPaths.expected, RootPaths.normal, RootPaths.raises, RootPaths.net]
+  · simp [step, RootPaths.expected, RootPaths.normal, RootPaths.net]
+  · simp [step, RootPaths.expected, RootPaths.normal, RootPaths.raises, RootPaths.net] <;> omega
+  · simp [step, RootPaths.expected, RootPaths.normal, RootPaths.raises, RootPaths.net]
+  · intro h; simp [step, h, RootPaths.expected, RootPaths.normal, RootPaths.assumed, RootPaths.net] <;> omega
+  · intro h1 h2; simp [step, h1, h2, RootPaths.expected, RootPaths.normal, RootPaths.assumed, RootPaths.net] <;> omega
+  · intro h1 h2; simp [step, h1, h2, RootPaths.expected, RootPaths.assumed, RootPaths.net]
+  · intro h1 h2; simp [step, h1, h2, RootPaths.expected, RootPaths.normal, RootPaths.assumed, RootPaths.net] <;> omega
+  · intro h0 h1 h2; simp [step, h0, h1, h2, RootPaths.expected, RootPaths.normal, RootPaths.net] <;> omega
+  · intro h; simp [step, h, RootPaths.expected, RootPaths.normal, RootPaths.assumed, RootPaths.net] <;> omega
+
+/-- the specification rejects an early return in front of the releases (seeded change C20-2), a release under a condition that
+    is not the operation's own, and a raise after a pin -/
+example : RootPaths.pathOk ("janet_proc_wait_cb", "return", "", [("assume:have-proc", "true")]) = false := by decide
+example : RootPaths.pathOk ("janet_ev_default_threaded_callback", "end", "", [("assume:no-fiber", "false")]) = false := by decide
+example : RootPaths.pathOk ("os_proc_wait_impl", "raise", "janet_panicf", [("root", "ABSTRACT:proc")]) = false := by decide
+example : RootPaths.pathOk ("janet_proc_wait_cb", "end", "",
+    [("assume:have-proc", "true"), ("unroot", "ABSTRACT:proc"), ("unroot", "FIBER:args.fiber")]) = true := by decide
+
+end RootPathsSec
 
 /-! ## the self pipe: every completion written by another thread is delivered (session 4)
 
@@ -1007,8 +1068,8 @@ def fdPseudoSites : List Fds.Site :=
     `janet_stream` → `janet_stream_ext` forwarding, unmarshalling a core/file (re-owns a descriptor that travelled in a message),
     the NOT_CLOSEABLE wrappers of stdin / stdout / stderr -/
 def fdPassiveSites : List Fds.Site :=
-  [("janet_stream_checktoclose", "janet_stream_close(stream)"), ("janet_stream", "janet_stream_ext(handle)"), ("io_file_unmarshal", "fdopen(fd)"),
-   ("janet_lib_io", "janet_makefile(stdout)"), ("janet_lib_io", "janet_makefile(stderr)"), ("janet_lib_io", "janet_makefile(stdin)")]
+  [("janet_stream_checktoclose", "janet_stream_close($1)"), ("janet_stream", "janet_stream_ext($1)"), ("io_file_unmarshal", "fdopen($1)"),
+   ("janet_lib_io", "janet_makefile($1)"), ("janet_lib_io", "janet_makefile($2)"), ("janet_lib_io", "janet_makefile($3)")]
 
 /-- ★ tie: every descriptor-creating / -closing / -wrapping call site in ev.c, net.c, os.c, io.c, filewatch.c is mirrored by a
     model operation (or is one of the six listed passive sites), and every site the model mirrors exists in the source.  A new
